@@ -90,6 +90,151 @@ def check_C05(tier):
     return verdict(agg, tier, t0, rule, GEN_ASSUME[:2] + ['the name->scheme table (checks/schemes.hpp) is written from the reference dispatch and the README, not from genbbsub.cc'], min_eval=1000)
 
 
+def _fuzz(name, srcs, prop, secs, jobs, agg, max_len=2048, extra=None, timeout_s=10, min_secs_replay=0):
+    """engine B: libFuzzer campaign (jobs independent processes, fresh corpus dirs seeded from corpus/<name>/) + replay tier.
+    Only crash-/leak- artifacts count; timeout-/oom-/slow-unit- are re-run 3x single-threaded and count only if they reproduce."""
+    import re, shutil, hashlib, glob
+    from concurrent.futures import ThreadPoolExecutor
+    b = compile_bin(name, srcs, 'fuzz', inc=[os.path.join(ROOT, 'fuzz'), vlib.build_ref()])
+    rd = os.path.join(BUILD, 'run', 'fuzz-' + name)
+    shutil.rmtree(rd, ignore_errors=True)
+    os.makedirs(rd)
+    os.makedirs(REPLAY, exist_ok=True)
+    env = run_env()
+    seeds = sorted(glob.glob(os.path.join(ROOT, 'corpus', name, '*')))
+    saved = sorted(glob.glob(os.path.join(REPLAY, '%s-%s-*.bin' % (prop, name))))
+    stats = {'target': name, 'replayed_inputs': 0, 'execs': 0, 'corpus_units': 0, 'cov_edges': 0, 'jobs': jobs, 'seconds_per_job': secs}
+
+    def classify(path):
+        """re-run one input alone; returns (kind, loc, stderr) or None if it passes"""
+        r = subprocess.run([b, '-timeout=60', '-rss_limit_mb=4096', path], stdout=subprocess.PIPE, stderr=subprocess.PIPE, env=env)
+        if r.returncode == 0:
+            return None
+        se = r.stderr.decode('latin-1')
+        kind, loc = vlib.san_summary(se)
+        if kind is None:
+            m = re.search(r'ERROR: libFuzzer: ([^\n]*)', se)
+            kind, loc = ('libfuzzer', m.group(1)[:80]) if m else ('abnormal-exit', 'rc=%d' % r.returncode)
+        return kind, loc, se
+
+    def record(path, tag):
+        c = classify(path)
+        if c is None:
+            return False
+        kind, loc, se = c
+        data = open(path, 'rb').read()
+        dst = os.path.join(REPLAY, '%s-%s-%s.bin' % (prop, name, hashlib.sha1(data).hexdigest()[:12]))
+        if not os.path.exists(dst):
+            open(dst, 'wb').write(data)
+        open(dst + '.txt', 'w').write(se[-6000:])
+        agg.failures.append({'sig': '%s|%s|crash:%s:%s' % (prop, name, kind, loc), 'msg': '%s: %s at %s (%s)' % (name, kind, loc, tag), 'replay': dst})
+        return True
+
+    # replay tier: committed corpus + previously saved failing inputs
+    for f in seeds + saved:
+        stats['replayed_inputs'] += 1
+        agg.evaluations += 1
+        record(f, 'replay tier')
+
+    def job(i):
+        cd = os.path.join(rd, 'c%d' % i)
+        ad = os.path.join(rd, 'a%d' % i)
+        os.makedirs(cd)
+        os.makedirs(ad)
+        if i % 2 == 0:  # even jobs start from the seed corpus, odd jobs from an empty one
+            for f in seeds:
+                shutil.copy(f, cd)
+        e = dict(env, VERIF_FUZZ_STATS=os.path.join(rd, 'stats%d.json' % i))
+        cmd = [b, cd, '-max_total_time=%d' % secs, '-seed=%d' % (seed() * 100 + i + 1), '-artifact_prefix=' + ad + '/', '-print_final_stats=1',
+               '-max_len=%d' % max_len, '-timeout=%d' % timeout_s, '-rss_limit_mb=3000', '-malloc_limit_mb=1024', '-use_value_profile=0'] + (extra or [])
+        out = []
+        # libFuzzer stops at the first crash: restart until the time budget is used (the corpus dir keeps its state)
+        t_end = time.time() + secs
+        while True:
+            left = int(t_end - time.time())
+            if left < 2 and out:
+                break
+            cmd[2] = '-max_total_time=%d' % max(left, 2)
+            r = subprocess.run(cmd, stdout=subprocess.PIPE, stderr=subprocess.PIPE, env=e)
+            out.append(r.stderr.decode('latin-1'))
+            open(os.path.join(rd, 'log%d.txt' % i), 'a').write(out[-1][-20000:])
+            if r.returncode == 0 or len(out) > 50:
+                break
+        return out, ad, cd, os.path.join(rd, 'stats%d.json' % i)
+
+    with ThreadPoolExecutor(max_workers=jobs) as ex:
+        results = list(ex.map(job, range(jobs)))
+    labels = {}
+    seen_art = set()
+    for outs, ad, cd, sf in results:
+        for se in outs:
+            m = re.findall(r'stat::number_of_executed_units:\s*(\d+)', se)
+            if m:
+                stats['execs'] += int(m[-1])
+            m = re.findall(r'cov: (\d+)', se)
+            if m:
+                stats['cov_edges'] = max(stats['cov_edges'], int(m[-1]))
+        units = os.listdir(cd)
+        stats['corpus_units'] += len(units)
+        for u in units:
+            agg.nontrivial.add('fz:' + name + ':' + u)
+        if os.path.exists(sf):
+            try:
+                for k, v in json.load(open(sf)).items():
+                    labels[k] = labels.get(k, 0) + v
+            except Exception:
+                pass
+        for a in sorted(os.listdir(ad)):
+            pth = os.path.join(ad, a)
+            h = hashlib.sha1(open(pth, 'rb').read()).hexdigest()
+            if h in seen_art:
+                continue
+            seen_art.add(h)
+            if a.startswith(('crash-', 'leak-')):
+                if not record(pth, 'campaign'):
+                    stats['unreproducible_artifacts'] = stats.get('unreproducible_artifacts', 0) + 1
+            else:  # timeout / oom / slow-unit: only if it reproduces 3x alone
+                if a.startswith('slow-unit'):
+                    continue
+                ok = 0
+                for _ in range(3):
+                    r = subprocess.run([b, '-timeout=%d' % (timeout_s * 3), '-rss_limit_mb=3000', '-malloc_limit_mb=1024', pth], stdout=subprocess.PIPE, stderr=subprocess.PIPE, env=env)
+                    if r.returncode != 0:
+                        ok += 1
+                if ok == 3:
+                    record(pth, 'campaign (%s reproduced 3x)' % a.split('-')[0])
+                else:
+                    stats['load_noise_artifacts'] = stats.get('load_noise_artifacts', 0) + 1
+    agg.evaluations += stats['execs']
+    for k, v in labels.items():
+        agg.labels['fz:%s:%s' % (name, k)] = v
+    if stats['execs'] == 0:
+        agg.broken.append('libFuzzer target %s executed nothing' % name)
+    key = 'libfuzzer_' + name
+    return {key: stats}
+
+
+def check_C08(tier):
+    """sanitizer builds (ASan+UBSan+_GLIBCXX_ASSERTIONS) of the generation drivers + structure-aware libFuzzer target"""
+    t0 = time.time()
+    agg = Agg('C08')
+    thorough = tier == 'thorough'
+    # (a) C04 / C03 / C05 drivers against the sanitized library
+    extra04 = ['--bkg_evts', '20000' if thorough else '1200', '--dbd_evts', '1500' if thorough else '120']
+    agg.add(_gencheck('C04', tier if thorough else 'quick', 'san', extra04, tag='C08-c04'), crash_prop='C08')
+    agg.add(_gencheck('C05', 'quick', 'san', ['--evts', '6000' if thorough else '600'], tag='C08-c05'), crash_prop='C08')
+    # semantic failures of the piggy-backed drivers belong to their own properties: keep only sanitizer findings here
+    agg.failures = [f for f in agg.failures if '|crash:' in f['sig']]
+    agg.known = {}
+    # (b) fuzz_shoot
+    fz = _fuzz('fuzz_shoot', ['fuzz/fuzz_shoot.cc'], 'C08', secs=(600 if thorough else 25), jobs=NCPU, agg=agg)
+    rule = ('cases = (configuration, steered tape, event reuse) from the C04/C05 drivers re-run against the ASan+UBSan+_GLIBCXX_ASSERTIONS build, plus the '
+            'structure-aware libFuzzer target fuzz_shoot (bytes -> category, name, level, mode, window, reuse pattern, MDL op, tape); oracle = sanitizers; '
+            'distinct = (configuration, path signature, tail class) for the drivers + libFuzzer corpus units')
+    return verdict(agg, tier, t0, rule, ['sanitizers as oracle: ASan, UBSan (-fno-sanitize-recover), _GLIBCXX_ASSERTIONS; leak detection off',
+                                         'documented rejections (C++ exceptions) are not failures'], extra_cov=fz, min_eval=1000)
+
+
 def replay(prop, path):
     """plain re-execution of a saved failing case, bypassing every generator"""
     j = json.load(open(path)) if path.endswith('.json') else {}
